@@ -55,9 +55,12 @@ package r1cs
 //@   trusted "a fresh wire with coefficient one"
 //@   assigns *builder.cs
 //@   ensures fresh(result) && allocated(result)
+// nHints(builder, 0): number of hints the builder has registered so far (ghost counter, only ever increased)
+//@ ghost nHints int monotone
 //@ contract (*builder).NewHint
 //@   trusted "hint outputs are fresh wires"
-//@   assigns *builder.cs
+//@   assigns *builder.cs, nHints(builder, 0)
+//@   constraint result.1 == nil ==> nHints(builder, 0) == old(nHints(builder, 0)) + 1
 //@   ensures result.1 == nil ==> len(result.0) == nbOutputs && fresh(result.0) && (forall k int :: 0 <= k && k < nbOutputs ==> isLE(result.0[k]))
 //@ contract (*builder).Add
 //@   trusted "not verified: k-way merge of sorted linear expressions"
@@ -217,3 +220,10 @@ package r1cs
 //@   loop 1 invariant @eq lsum(builder, res) == f0 ==> hiR(builder, bi1, i + 1) == hiR(builder, bi2, i + 1)
 //@   loop 1 invariant @gt lsum(builder, res) == f1 ==> hiR(builder, bi1, i + 1) > hiR(builder, bi2, i + 1)
 //@   loop 1 invariant @lt lsum(builder, res) == fneg(f1) ==> hiR(builder, bi1, i + 1) < hiR(builder, bi2, i + 1)
+
+// ---- C20: every successful Commit draws its own mask: two hints are registered per call (the Randomize mask and the
+// commitment placeholder), so a mask allocated once and re-used by later calls fails this clause
+//@ contract (*builder).Commit
+//@   props C20
+//@   requires builder != nil
+//@   ensures @own-mask result.1 == nil ==> nHints(builder, 0) >= old(nHints(builder, 0)) + 2
